@@ -111,7 +111,8 @@ def check(ctx):
         ok2 = len(idx) == 1 and "buffer" in str(util.arg_path(b2, idx[0][1], 0))
         if ok2:
             i = strip_casts(d2.expr(idx[0][1]["args"][1]))
-            ok2 = (i[0] == "bin" and i[1] == "Rem" and strip_casts(i[2])[0] == "param" and strip_casts(i[3]) == ("gconst", "BUFFER_SIZE")) or i[0] == "param"
+            base_ = util.ring_index_base(i)
+            ok2 = (base_ is not None and base_[0] == "param") or i[0] == "param"
         ctx.ob("R08.2", f"{k2}|indexes-own-buffer", ok2, f"{b2.f['file']}:{b2.f['line']}", "reference = buffer[index % BUFFER_SIZE] of the same buffer")
     # ------------------------------------------------------------------ R08.3 lap reconstruction: wrap safety + Release publication
     C15 = importlib.import_module("props.C15")
